@@ -18,7 +18,7 @@ for b in ben:
     brow.append(f"| {b} | {re.sub(chr(10), ' ', str(m.get('summary','')))[:260].replace('|','/')} | {', '.join(m.get('files', []))[:120]} |")
 text = f"""## 11. Seeded changes and which checks catch them
 
-{len(rows)} property-breaking changes (fourteen per property, written in seven rounds) and {len(ben)} behaviour-preserving refactors were produced by
+{len(rows)} property-breaking changes (sixteen per property - fifteen for C19 -, written in eight rounds) and {len(ben)} behaviour-preserving refactors were produced by
 fresh sub-agents that saw only the text of one property (or, for the refactors, a list of files) and a scratch worktree of /repo -
 nothing from /verif. Each property-breaking change was confirmed by me in a scratch worktree (`tools/confirm_mut.sh`: the patch applies,
 the 179 tests pass with it, its demonstration fails with it and passes without it) and then run against the registered quick check of
@@ -30,10 +30,10 @@ consists of and asked for changes it is LEAST likely to notice (each explains th
 red-team round whose sub-agents were additionally given every earlier idea and the strengthening it had led to; round 7 a third one, whose
 sub-agents were also told about the source-derived dictionary, the size ladder, the process environments and the state observers.
 
-**Result.** (Numbers for /repo 705cf1c.) {len(rows) - 3} of the {len(rows)} changes are reported with a concrete failing input by the quick check of the property they break; three are
+**Result.** (Numbers for /repo ec6c9f4.) {len(rows) - 4} of the {len(rows)} changes are reported with a concrete failing input by the quick check of the property they break; four are
 reported as a broken proof obligation / correspondence (`no-failing-input-found`, the replay names what no longer checks): C06_10 (a whole new
 attestation format added to the library: the "seven formats" theorem no longer checks against the regenerated enum, and no ceremony of a format
-that does not exist in the model is generated), C04_12 (an eighth certificate literal in the source: nobody without its private key can build
+that does not exist in the model is generated; likewise C02_16, a "compound" format), C04_12 (an eighth certificate literal in the source: nobody without its private key can build
 the chain that is wrongly accepted - the pinned set of built-in anchors no longer matches) and C18_11 (library code entering
 `warnings.catch_warnings()`, i.e. swapping the process-wide filter list: the failing schedule is a two-bytecode window between threads - the
 "pure functions" premise of the model no longer matches)
@@ -103,6 +103,21 @@ RP-id collections, remarkable certificate dates (the epoch, 2038, 2050, 9999-12-
 (j) **unsigned lures**: members a response of the other ceremony would have (`attestationObject` in an assertion), CTAP2's integer keys and other spellings inside the
 attestation object, each carrying a fault-free copy of what the signed data gets wrong;
 (k) built-in anchors are substituted by VALUE wherever they are bound (the by-name substitution crashed on a refactoring - C18_14).
+
+Round 8 (fourth red-team round: 31 of 39 initially missed; one of its 40 changes turned out to be my own F11 repair and was dropped; a second genuine defect, F11, was found
+while strengthening) went for what the simulator does not build and for the Python objects the arguments are: added were (l) **equivalent call shapes for every case**
+(`impl.equivalent_auth_calls` / `equivalent_reg_calls`, two per case round-robin, all of them in C20): non-contiguous memoryviews, bytearrays, `type` as the plain string, str
+subclasses, tuples, one-shot iterators and generators for the algorithm list (also the default list passed explicitly), plain integers, five kinds of Mapping for the roots,
+the stored counter as Decimal / Fraction / float / int subclass, policy switches left out when they have their defaults; for option generation plain ints, str subclasses whose
+`str()` lies and members of foreign `(str, Enum)` classes (`optsim.shaped`); (m) **the attestation object in every encoding CBOR allows** for the same value (member order,
+indefinite lengths, wider length fields - `cborgen.encode_styled`, one per registration case), COSE keys with extra members, registry members in other number / text forms,
+compressed-point forms with the MIRROR key authenticating; (n) chain features: proxy certificates, path-length violations (alone and hiding a validity fault), a re-dated copy of
+the root's key inside x5c, AKI by issuer-and-serial, trust lists that hold the intermediate, certificates whose validity boundary is crossed WHILE the check runs (3 s: catches a
+clock read at import); (o) texts that are almost JSON (raw control characters in strings, comments, single quotes ...), client data in UTF-8-sig / UTF-16 / UTF-32, floats and NaN
+inside CBOR, the EdDSA repair marker written over every offset of a layout, magic / tag constants in the other byte order, moduli with arithmetic structure; (p) **`fw.exercise_new_api`**:
+public callables the changed source defines and the pinned API baseline lacks are called, and what they return is used as a context manager around accepted and refused calls -
+afterwards the old API must answer as before (a leaked "strict mode"); (q) the same record OBJECT re-verified after its fields were re-assigned, 300 distinct calls then the first
+again, instruction-level interleaving with shared argument objects.
 
 **Detection must not depend on the random stream.** Re-running all seeded changes under other seeds (`VERIF_SEED=1`, `7`) showed that a few catches
 had been luck: a catalogue entry that picks one of several variants at random (which origin alias, which id spelling, which vandalism) only exposes
